@@ -59,6 +59,10 @@ class Index(Harness):
     def cases(self, tier):
         mx = 3 if tier == 'quick' else 6
         out = []
+        # the index given as numeric text (with sign): one- and two-dimensional host arrays
+        for txt in ('numtext', 'negnumtext'):
+            out.append({'dim': 1, 'R': 1, 'C': 3, 'src': 'var', 'form': 'r', 'itext': txt})
+            out.append({'dim': 2, 'R': 3, 'C': 2, 'src': 'var', 'form': 'rc', 'itext': txt})
         for src in ('lit', 'var'):
             for n in range(1, mx + 1):
                 out.append({'dim': 1, 'R': 1, 'C': n, 'src': src, 'form': 'r'})
@@ -72,12 +76,16 @@ class Index(Harness):
 
     def build(self, e, p):
         arr = [[e.fresh_int('a%d%d' % (i, j)) for j in range(p['C'])] for i in range(p['R'])]
+        if p.get('itext'):
+            from .common import numtext
+            rt, rv = numtext(e, 'r', 1, sign='-' if p['itext'] == 'negnumtext' else None)
+            return {'arr': arr, 'r': rv, 'rtext': rt, 'c': e.fresh_int('c', 1, p['C'])}
         return {'arr': arr, 'r': e.fresh_int('r', -10, p['R'] + 10 if p['dim'] == 2 else p['C'] + 10),
                 'c': e.fresh_int('c', -10, p['C'] + 10)}
 
     def run(self, env, inp, p):
         arr = inp['arr']
-        vs = {'vr': inp['r'], 'vc': inp['c']}
+        vs = {'vr': inp.get('rtext', inp['r']), 'vc': inp['c']}
         if p['src'] == 'var':
             vs['varr'] = arr[0] if p['dim'] == 1 else arr
             atext = 'varr'
@@ -138,7 +146,7 @@ class Match(Harness):
           'position of the largest item <= x, t=-1 on descending arrays of the smallest item >= x, else #N/A; INDEX(a, MATCH(x,a,0)) = x'
     functions = ('lookupandreference.MATCH', 'lookupandreference.INDEX')
     bounds = 'arrays of 1..4 symbolic integers (sorted with duplicates for t = +-1); text arrays of 1..3 items of 1..2 ASCII letters ' \
-             'with a lookup pattern of 1..2 characters from letters * ?'
+             'with a lookup pattern of 1..3 characters from letters * ?'
     outside = ('wildcard patterns containing [', 'non-ASCII text (case folding)')
 
     def cases(self, tier):
@@ -148,8 +156,8 @@ class Match(Harness):
                 out.append({'kind': 'int', 'n': n, 't': t})
         lens = (1, 2)
         for n in (1, 2) if tier == 'quick' else (1, 2, 3):
-            for lp in lens:
-                for li in lens:
+            for lp in (1, 2, 3):
+                for li in lens if tier == 'quick' else (1, 2, 3):
                     out.append({'kind': 'text', 'n': n, 't': 0, 'lp': lp, 'li': li})
         return out
 
